@@ -83,6 +83,7 @@ pub fn read_ndjson(path: &str) -> Vec<Value> {
 }
 
 /// minimal argv parsing: --key value pairs after the subcommand
+#[derive(Clone)]
 pub struct Args {
     kv: Vec<(String, String)>,
 }
